@@ -127,7 +127,8 @@ WriteClauses(m, e) ==
 \* behind the request frame reached the target), replySame (first bytes behind the response frame reached the client),
 \* isDialErr/msgSame (the client's error carries the target's message)
 E2EClauses(m, e) ==
-  LET inDom == e.addrLen >= 1 /\ e.addrLen <= m.lim.a IN
+  \* frames made by the harness' raw peer carry their padding length; the stock client's padding is always in range
+  LET inDom == e.addrLen >= 1 /\ e.addrLen <= m.lim.a /\ (IF "padLen" \in DOMAIN e THEN e.padLen <= m.lim.p ELSE TRUE) IN
   << <<"E2EAddr",    inDom /\ ~(e.called /\ e.addrSame)>>,
      <<"E2EReject",  ~inDom /\ e.called>>,
      <<"E2EPayload", inDom /\ e.msgLen = -1 /\ e.called /\ e.addrSame /\ ~(e.dialOk /\ e.payloadSame /\ e.replySame)>>,
